@@ -16,8 +16,8 @@ KANI_FILES = {
                        modpath="verif_core"),
     "verif_file": dict(src="kani/verif_file.rs", dst="src/sys/fs/memfs/verif_file.rs",
                        mod_file="src/sys/fs/memfs/mod.rs", modpath="sys::fs::memfs::verif_file"),
-    "verif_entry": dict(src="kani/verif_entry.rs", dst="src/sys/fs/verif_entry.rs",
-                        mod_file="src/sys/fs/mod.rs", modpath="sys::fs::verif_entry"),
+    "verif_entry": dict(src="kani/verif_entry.rs", dst="src/sys/fs/memfs/verif_entry.rs",
+                        mod_file="src/sys/fs/memfs/mod.rs", modpath="sys::fs::memfs::verif_entry"),
     "verif_chmod": dict(src="kani/verif_chmod.rs", dst="src/sys/fs/verif_chmod.rs",
                         mod_file="src/sys/fs/mod.rs", modpath="sys::fs::verif_chmod"),
 }
